@@ -715,7 +715,7 @@ func (d decoder) rr(s *cryptobyte.String) (RR, error) {
 		}
 		rr.Data = v
 	default:
-		rr.Data = []byte(data)
+		rr.Data = slices.Clip([]byte(data))
 	}
 	return rr, nil
 }
@@ -844,7 +844,7 @@ func (d decoder) svcb(b []byte) (SVCB, error) {
 		if !s.ReadUint16LengthPrefixed(&value) {
 			return result, ErrDecodeError
 		}
-		result.Params = append(result.Params, SVCBParam{Key: key, Value: value})
+		result.Params = append(result.Params, SVCBParam{Key: key, Value: slices.Clip(value)})
 	}
 	return result, nil
 }
@@ -957,7 +957,7 @@ func (d decoder) cert(b []byte) (CERT, error) {
 	if !s.ReadUint8(&result.Algorithm) {
 		return result, ErrDecodeError
 	}
-	result.Certificate = s
+	result.Certificate = slices.Clip(s)
 	return result, nil
 }
 
@@ -972,6 +972,7 @@ func (d decoder) opt(b []byte) ([]Option, error) {
 		if !s.ReadUint16LengthPrefixed((*cryptobyte.String)(&opt.Data)) {
 			return result, ErrDecodeError
 		}
+		opt.Data = slices.Clip(opt.Data)
 		result = append(result, opt)
 	}
 	return result, nil
@@ -989,7 +990,7 @@ func (d decoder) ds(b []byte) (DS, error) {
 	if !s.ReadUint8(&result.DigestType) {
 		return result, ErrDecodeError
 	}
-	result.Digest = s
+	result.Digest = slices.Clip(s)
 	return result, nil
 }
 
@@ -1005,7 +1006,7 @@ func (d decoder) dnskey(b []byte) (DNSKEY, error) {
 	if !s.ReadUint8(&result.Algorithm) {
 		return result, ErrDecodeError
 	}
-	result.PublicKey = s
+	result.PublicKey = slices.Clip(s)
 	return result, nil
 }
 
@@ -1017,7 +1018,7 @@ func (d decoder) nsec(b []byte) (NSEC, error) {
 		return result, err
 	}
 	result.NextDomainName = name
-	result.TypeBitMaps = s
+	result.TypeBitMaps = slices.Clip(s)
 	return result, nil
 }
 
@@ -1050,7 +1051,7 @@ func (d decoder) rrsig(b []byte) (RRSIG, error) {
 		return result, err
 	}
 	result.SignerName = name
-	result.Signature = s
+	result.Signature = slices.Clip(s)
 	return result, nil
 }
 
